@@ -371,6 +371,7 @@ pub fn resolve_inputs(spec: &str, seed: u64) -> Vec<Input> {
             "manyimp" => out.extend(many_import_inputs()),
             "offsets" => out.extend(offset_inputs()),
             "nocode" => out.extend(nocode_inputs()),
+            "reffuncexp" => out.extend(ref_func_export_inputs()),
             "badnames" => out.extend(bad_name_inputs()),
             "noncanon" => out.extend(noncanonical_inputs()),
             "trailing" => out.extend(trailing_operator_inputs()),
@@ -1480,6 +1481,15 @@ pub fn bad_name_inputs() -> Vec<Input> {
     v
 }
 
+/// `ref.func $f` where `$f` is declared by nothing but its export (valid: an export is a declaration)
+pub fn ref_func_export_inputs() -> Vec<Input> {
+    let wats = [
+        "(module (func $f (export \"f\")) (func (export \"g\") ref.func $f drop))",
+        "(module (func $f (export \"f\") (param i32) (result i32) local.get 0) (func $h) (func (export \"g\") ref.func $f drop call $h))",
+    ];
+    wats.iter().enumerate().map(|(k, w)| Input { id: format!("reffuncexp-{}", k), bytes: wat::parse_str(w).unwrap(), source: format!("reffuncexp:{}", k) }).collect()
+}
+
 /// one module per post-MVP proposal that needs exactly (or at least) that proposal, plus MVP modules
 pub fn proposal_inputs(seed: u64, per: u64) -> Vec<Input> {
     let mut out = vec![];
@@ -1621,7 +1631,7 @@ pub fn edits_case(inp: &Input, script: &[Value], tag: &str) -> Value {
         }
         if gc {
             if let Err(e) = run::gc(&mut m) {
-                events.push(json!({"op": "emit", "gc": true, "outcome": format!("gc-{}", e), "out_valid": false, "out_error": "", "decl_only_passive": []}));
+                events.push(json!({"op": "emit", "gc": true, "outcome": format!("gc-{}", e), "out_valid": false, "out_error": "", "decl_only_passive": [], "plain_dop": [], "repl_undeclared": []}));
                 continue;
             }
         }
@@ -1631,9 +1641,14 @@ pub fn edits_case(inp: &Input, script: &[Value], tag: &str) -> Value {
                 // diagnosis aid for the known GC finding: computed on the module emitted *without* the pass
                 let dop = if gc { events.iter().rev().find(|x| x["op"] == "emit").map(|x| x["plain_dop"].clone()).unwrap_or(json!([])) } else { json!([]) };
                 let plain_dop = if !gc { absmod::project(&e.bytes).map(|m| declared_only_by_passive(&m)).unwrap_or_default() } else { vec![] };
-                events.push(json!({"op": "emit", "gc": gc, "outcome": "ok", "out_valid": v.is_ok(), "out_error": run::short(&v.err().unwrap_or_default()), "decl_only_passive": dop, "plain_dop": plain_dop}));
+                // diagnosis aid for the known replace_exported_func finding: functions whose export was retargeted by the
+                // script and that a body still names by ref.func while nothing declares them any more
+                let replaced: Vec<usize> = script.iter().filter(|e| e["op"] == "replace_exported").filter_map(|e| e["id"].as_u64().map(|x| x as usize)).collect();
+                let repl_undeclared: Vec<usize> = crate::edits::undeclared_ref_funcs(&m).into_iter().filter(|f| replaced.contains(f)).collect();
+                events.push(json!({"op": "emit", "gc": gc, "outcome": "ok", "out_valid": v.is_ok(), "out_error": run::short(&v.err().unwrap_or_default()), "decl_only_passive": dop, "plain_dop": plain_dop,
+                                   "repl_undeclared": repl_undeclared}));
             }
-            Err(e) => events.push(json!({"op": "emit", "gc": gc, "outcome": format!("emit-{}", e), "out_valid": false, "out_error": "", "decl_only_passive": [], "plain_dop": []})),
+            Err(e) => events.push(json!({"op": "emit", "gc": gc, "outcome": format!("emit-{}", e), "out_valid": false, "out_error": "", "decl_only_passive": [], "plain_dop": [], "repl_undeclared": []})),
         }
     }
     json!({"id": format!("{}~{}", inp.id, tag), "source": inp.source, "init": init, "events": events})
